@@ -5,6 +5,14 @@ SEQ_RULE = ("one run = one generated single-client program (10-150 transactions 
             "watermark goroutines; evaluations = runs; distinct_nontrivial = distinct event-log hashes (task, site, pc per "
             "scheduling step plus every random draw) among runs that flushed at least one table and checked at least one read")
 
+LM_RULE = ("one run = a real levelManager (through the verif accessor) over its own directory with drawn L0TargetNum/LevelRatio/"
+           "block size (down to one entry per block) and a drawn version-discard watermark, driven through 1-7 generated flushes "
+           "(1-30 versioned entries over 2-8 adversarial keys, several versions and tombstones per key, overlapping and disjoint key "
+           "ranges), compactions (cascades included) and handle rebuilds by recover(), inside the simulation runtime (clock, pool and "
+           "file operations controlled; single driver task - this property has no schedule dimension)")
+LM_COMPONENTS = {"levelManager (flushToL0, checkAndCompact, recover, searchLowerBound), table, kway, filter": "real code via verif accessor",
+                 "oracle/watermark": "real (provides the discard watermark)", "clock, pool": "simulated", "file system": "real files on tmpfs"}
+
 CONC_RULE = ("one run = one generated multi-client program (2-4 clients, up to 36 transactions over 2-6 adversarial keys: "
              "read-modify-write, read-two-write-one, multi-key writers, multi-key readers, long-lived readers that stay open across "
              "2-13 foreign commits, unique values, rotation-heavy Config) under one seeded schedule of clients, flusher/compactor and "
@@ -140,5 +148,41 @@ PROPS = {
         quick=dict(runs=60000, budget_s=20), thorough=dict(runs=5000000, budget_s=600, det_runs=64),
         must_probes=dict(quick=["overwrite_existing_versioned_key", "entries_at_end"], thorough=["overwrite_existing_versioned_key", "entries_at_end"]),
         components={"pkg/skiplist, types.CompareKeys": "real code", "clock (PRNG seed)": "synctest fake clock set from the run seed"},
+    ),
+    "C09": dict(
+        pkg="comp", level="exploration", eval_is_oracle=True,
+        rule=LM_RULE + "; C09 oracle: around every compaction that changed the tables, for every key of the universe (plus absent keys) and every "
+             "ts in [watermark, max version + 1] the Get-level answer (value / not found, a tombstone counting as a version) computed by brute "
+             "force from the decoded tables before and after is equal; at the end the answers also equal those computed from everything that "
+             "was ever flushed; non-trivial = at least one compaction changed the tables",
+        quick=dict(runs=4000, budget_s=40), thorough=dict(runs=200000, budget_s=1200, det_runs=32),
+        must_probes=dict(quick=["compactions_that_changed_tables", "versions_discarded", "handles_rebuilt", "compaction_reached_L2", "one_entry_per_block_runs"],
+                         thorough=["compactions_that_changed_tables", "versions_discarded", "handles_rebuilt", "compaction_reached_L2", "one_entry_per_block_runs"]),
+        components=LM_COMPONENTS,
+    ),
+    "C10": dict(
+        pkg="comp", level="exploration", eval_is_oracle=True,
+        rule=LM_RULE + "; C10 oracle: after every action, for every key of the universe plus absent keys and EVERY ts in [0, max version + 1] "
+             "(exhaustive over the small universe of the case) the real table lookup equals, at entry level (version, tombstone, value), "
+             "the brute-force newest version <= ts over all decoded tables",
+        quick=dict(runs=4000, budget_s=40), thorough=dict(runs=200000, budget_s=1200, det_runs=32),
+        must_probes=dict(quick=["flushes", "handles_rebuilt", "one_entry_per_block_runs", "compactions_that_changed_tables"],
+                         thorough=["flushes", "handles_rebuilt", "one_entry_per_block_runs", "compactions_that_changed_tables"]),
+        components=LM_COMPONENTS,
+    ),
+    "C11": dict(
+        pkg="comp", level="exploration", eval_is_oracle=True,
+        rule="one run = 1-4 tasks calling Data/Index/Footer/Meta.Encode, table.Build and WAL.Write/Read on generated inputs (binary keys, "
+             "empty values, long shared prefixes, lengths 0,1,255,256,4096 and, in 4% of the runs, 65535/65536/70000-byte values and "
+             "oversize keys; block sizes from 1 byte) under one seeded schedule and the simulated buffer pool, adversarial in two thirds "
+             "of the runs (a buffer is overwritten with a pattern the moment it is returned to the pool - a legal execution of the real pool); "
+             "every returned byte slice is copied at return and compared at EVERY later scheduling step of any task (stability), and "
+             "decoded and compared with the original (round trip); evaluations = slice comparisons + round trips",
+        quick=dict(runs=12000, budget_s=40), thorough=dict(runs=600000, budget_s=1200, det_runs=32),
+        must_probes=dict(quick=["adversarial_pool_runs", "multi_task_runs", "pool_reuse_of_freed_buffer", "fields_64KiB_or_more", "multi_block_tables", "round_trips"],
+                         thorough=["adversarial_pool_runs", "multi_task_runs", "pool_reuse_of_freed_buffer", "fields_64KiB_or_more", "multi_block_tables", "round_trips"]),
+        components={"table (Data/Index/Footer/Meta, Build), wal, utils (s2, frugal), types": "real code",
+                    "sync.Pool under bufferpool": "simulated free list, adversarial overwrite on Put",
+                    "goroutine scheduling": "simulated (seeded)", "file system": "real files on tmpfs (wal)"},
     ),
 }
